@@ -32,7 +32,7 @@ for e in kf:
 open_md = "\n".join(rows)
 
 rows = ["| id | breaks / needs | existing suite with the change | quick check |", "|---|---|---|---|"]
-for d in sorted(glob.glob(os.path.join(HERE, "seeded", "*"))):
+for d in sorted(glob.glob(os.path.join(HERE, "seeded", "*")), key=lambda x: (os.path.basename(x).split("-")[0], int(os.path.basename(x).split("-")[1]) if os.path.basename(x).split("-")[1].isdigit() else 0)):
     try:
         m = json.load(open(os.path.join(d, "meta.json"))); ev = json.load(open(os.path.join(d, "eval.json")))
     except Exception:
@@ -42,6 +42,8 @@ for d in sorted(glob.glob(os.path.join(HERE, "seeded", "*"))):
         res = "masked at evaluation time, harmless now (" + ev["superseded"] + ")"
     if ev.get("detected_by_other_check"):
         res = "missed by this property's check; **detected** by another registered check (" + ev["detected_by_other_check"] + ")"
+    if ev.get("not_pursued"):
+        res = "**not detected**, left so (" + ev["not_pursued"] + ")"
     if ev.get("detected_after_strengthening"):
         res = "missed at first; **detected** after strengthening (" + ev["detected_after_strengthening"] + ")"
     rows.append(f"| {ev['id']} | {cell(m.get('title',''))} — needs: {cell(m.get('needs',''))[:260]} | {ev.get('existing_suite_with_patch','')} | {res} |")
